@@ -15,7 +15,7 @@ CONSTANTS
   MaxBS = 10
   Handles = {1}
   AllowClone = FALSE
-INVARIANTS InRange HarvestExact
+INVARIANTS InRange HarvestExact UntrackedClean UntrackedAnswers
 PROPERTIES FrameOK RangeExact
 VIEW View
 CHECK_DEADLOCK FALSE
